@@ -308,6 +308,7 @@ type SQLSchema struct {
 	Dropped     []string
 	Files       []string
 	Destructive []string // statements in migrations that delete data from ledger tables
+	OddKeys     []string // unique indexes / key columns that compare under a collation or over an expression
 }
 
 func splitStatements(src string) []string {
@@ -526,6 +527,16 @@ func (sc *SQLSchema) apply(file, stmt string) error {
 				for k := j + 2; k < len(toks); k++ {
 					if toks[k].k == "id" {
 						cols = append(cols, strings.ToLower(toks[k].s))
+					}
+				}
+				if unique {
+					// a uniqueness that compares otherwise than byte for byte (COLLATE NOCASE, lower(x), a partial
+					// index) refuses rows the Go-side pre-checks consider distinct
+					for k := j + 2; k < len(toks); k++ {
+						if toks[k].is("COLLATE") || toks[k].is("WHERE") || (toks[k].k == "id" && k+1 < len(toks) && toks[k+1].s == "(" && k > j+2) {
+							sc.OddKeys = append(sc.OddKeys, file+": "+strings.Join(strings.Fields(stmt), " "))
+							break
+						}
 					}
 				}
 				if unique && len(cols) == 1 {
